@@ -185,7 +185,7 @@ func TestVerifC34Table(t *testing.T) {
 }
 
 var c34Comps = []string{"", "latest", "stable", "edge", "t1", "2.0", "b1"}
-var c34Wide = []string{"", "latest", "stable", "candidate", "beta", "edge", "t1", "2.0", "1.10-lts", "foo", "b1", "hotfix-123", "Stable", "stable "}
+var c34Wide = []string{"", "latest", "stable", "candidate", "beta", "edge", "t1", "t10", "2.0", "1.10-lts", "foo", "b1", "hotfix-123", "Stable", "stable "}
 
 func c34Seqs(comps []string, maxlen int) [][]string {
 	var out [][]string
@@ -219,7 +219,7 @@ func TestVerifC34Laws(t *testing.T) {
 	em := newEmitter(t, "VERIF_OUT")
 	defer em.close()
 	r := seededRand()
-	all := c34Seqs(c34Comps, 4)
+	all := c34Seqs(append([]string{"t10"}, c34Comps...), 4)
 	for i := envInt("VERIF_NRAND", 500); i > 0; i-- {
 		all = append(all, c34RandSeq(r, 5))
 	}
@@ -353,6 +353,9 @@ func TestVerifC34Random(t *testing.T) {
 		pin := c34RandSeq(r, 2)
 		if r.Intn(3) == 0 {
 			pin = []string{[]string{"t1", "2.0", "latest", "foo"}[r.Intn(4)]}
+			if r.Intn(2) == 0 { // a request that starts like the pinned track
+				nw = append([]string{pin[0] + []string{"", "0", "-x"}[r.Intn(3)]}, c34RandSeq(r, 2)...)
+			}
 		}
 		em.emit(map[string]interface{}{"case": i, "s": s, "cur": cur, "new": nw, "pin": pin,
 			"pv": realPV(joinC(s)), "parse": realParse(joinC(s)), "full": realFull(joinC(s)), "cfull": realCFull(joinC(s)),
